@@ -253,7 +253,19 @@ class Ref:
         return v, ap
 
 
-def impl_apply(cls, obj, op, ref_before):
+def stack_operands(cls, op, ref_before):
+    """the fresh operands of a stack op, tagged with the tags the reference hands out"""
+    nxt = ref_before["next"]
+    shape = ref_before["shape"]
+    n = int(np.prod(shape))
+    objs = []
+    for fl in op[2]:
+        objs.append(build(cls, shape, list(range(nxt, nxt + n)), fl, ref_before["meta0"]))
+        nxt += n
+    return objs
+
+
+def impl_apply(cls, obj, op, ref_before, operands=None):
     """apply one op to the orix object; operands of stack are built from the tags the reference hands out"""
     k = op[0]
     if k == "getitem":
@@ -273,15 +285,8 @@ def impl_apply(cls, obj, op, ref_before):
     if k == "neg":
         return -obj
     if k == "stack":
-        pos, others = op[1], op[2]
-        nxt = ref_before["next"]
-        shape = ref_before["shape"]
-        n = int(np.prod(shape))
-        objs = []
-        for fl in others:
-            objs.append(build(cls, shape, list(range(nxt, nxt + n)), fl, ref_before["meta0"]))
-            nxt += n
-        objs.insert(pos, obj)
+        objs = list(stack_operands(cls, op, ref_before) if operands is None else operands)
+        objs.insert(op[1], obj)
         return type(obj).stack(objs)
     raise KeyError(k)
 
@@ -346,6 +351,8 @@ def run_prog_impl(case):
         what = f"step {step} {op[0]}"
         before = {"next": ref.next, "shape": list(ref.I.shape), "meta0": case["meta"]}
         h0 = buf_hash(obj)
+        operands = stack_operands(cls, op, before) if op[0] == "stack" else []
+        hops = [buf_hash(o) for o in operands]
         ref_err = impl_err = None
         try:
             ref.apply(op)
@@ -355,10 +362,10 @@ def run_prog_impl(case):
         try:
             with warnings.catch_warnings():
                 warnings.simplefilter("ignore")
-                new = impl_apply(cls, obj, op, before)
+                new = impl_apply(cls, obj, op, before, operands)
         except Exception as e:
             impl_err = e
-        if buf_hash(obj) != h0:
+        if buf_hash(obj) != h0 or [buf_hash(o) for o in operands] != hops:
             return f"{what}: the operand's buffer changed", None, ref, None
         if ref_err is not None and impl_err is not None:
             return None, None, ref, err_kind(ref_err)
@@ -798,7 +805,7 @@ def nontrivial(case):
 def generate(ctx):
     rng = ctx.rng
     quick = ctx.tier == "quick"
-    n = 2400 if quick else 40000
+    n = 8000 if quick else 60000
     for i in range(n):
         cls = CLASSES[i % 6]
         case = rand_case(rng, cls)
